@@ -467,6 +467,8 @@ fn sieve_block(s: &SieveQS, st: &mut Sieve, roots: [&[u32]; 2], backward: bool) 
             "INTERNAL ERROR: failed relation check {:?}",
             &rel
         );
+        #[cfg(yamaquasi_verif)]
+        crate::verif_hooks::jitter();
         s.rels.write().unwrap().add(rel, pq);
     }
 }
